@@ -18,8 +18,6 @@ import (
 	"github.com/glowlabs-org/gca-backend/client"
 	"github.com/glowlabs-org/gca-backend/glow"
 	"github.com/glowlabs-org/gca-backend/server"
-
-	"verifh/ev"
 )
 
 func pat(b byte, n int) []byte { return bytes.Repeat([]byte{b}, n) }
@@ -39,7 +37,7 @@ func sg(b byte) (s glow.Signature) {
 }
 
 func c15(tier string) int {
-	run := ev.NewRun("C15", tier, "exploration")
+	run := newRun("C15", tier, "exploration")
 	signing := map[string]string{} // signing bytes -> "type:value" for pairwise distinctness
 	addSigning := func(typ, val string, sb []byte) {
 		k := string(sb)
